@@ -232,7 +232,9 @@ Loxodromic ==
         /\ M[1][1] + M[2][2] + M[3][3] > 3
 
 Obs == [dim |-> Dim, cls |-> cls, k |-> k, w |-> w, prim |-> Prim(cls, k, w), der |-> Der(cls, k, w),
-        whole |-> WholeScale(cls), lox |-> Loxodromic]
+        whole |-> WholeScale(cls), lox |-> Loxodromic,
+        \* every row lies in the standard affine chart x_0 # 0 (domain of the chart-0 coordinate queries)
+        chart0 |-> \A j \in 1..Len(Prim(cls, k, w)) : Prim(cls, k, w)[j][1] # 0]
 EmitObs == PrintT("UNIT " \o ToJson(Obs))
 
 (***************************************************************************)
